@@ -194,6 +194,24 @@ Fixpoint gen_sq (v : value) : list instr :=
   | _ => [IPush v]
   end.
 
+(* The tail flag each unquoted expression is compiled with (in generation order).
+   generator.go GenerateSyntaxQuote clears gen.Tail on entry for the whole template and restores it
+   on return; every nested call of GenerateSyntaxQuote does the same.  The abstraction [IEval]
+   ("pushes exactly one value") is only right for code that is NOT compiled as a tail call: a self
+   tail call jumps to the start of the function with the template's markers still on the stack. *)
+Fixpoint unq_tails (tail : bool) (v : value) : list bool :=
+  let tail' := false in
+  match v with
+  | VArr l => flat_map (unq_tails tail') l
+  | VList l =>
+      match unq_form l with
+      | Some _ => [tail']
+      | None => flat_map (unq_tails tail') l
+      end
+  | VHash _ kv => concat (rev (map (fun p => unq_tails tail' (snd p) ++ unq_tails tail' (fst p)) kv))
+  | _ => []
+  end.
+
 (* what an evaluation of (syntaxQuote v) leaves: Some (top value, number of extra operands
    left below it) or None for an error *)
 Definition sq_model (rho : value -> option value) (v : value) : option (value * nat) :=
